@@ -4,13 +4,13 @@ mechanisms already used in round 1 (summaries only) so that the new changes diff
 import sys, json, subprocess, os, re
 pid = sys.argv[1]
 rnd = int(sys.argv[2]) if len(sys.argv) > 2 else 2
-L1, L2 = {2: ('C', 'D'), 3: ('E', 'F'), 4: ('G', 'H'), 5: ('I', 'J'), 6: ('K', 'L'), 7: ('M', 'N')}[rnd]
+L1, L2 = {2: ('C', 'D'), 3: ('E', 'F'), 4: ('G', 'H'), 5: ('I', 'J'), 6: ('K', 'L'), 7: ('M', 'N'), 8: ('O', 'P')}[rnd]
 OUT = '/tmp/mut/out%d' % rnd
 base = subprocess.run(['/venv/bin/python', '/verif/tools/mutant_prompt.py', pid], capture_output=True, text=True).stdout
 os.makedirs(OUT + '/' + pid, exist_ok=True)
 base = base.replace('/tmp/mut/out/%s/' % pid, OUT + '/%s/' % pid).replace('(A and B)', '(%s and %s)' % (L1, L2)).replace('X in A, B', 'X in %s, %s' % (L1, L2)).replace('A and B must use', '%s and %s must use' % (L1, L2)).replace('summary of A and B', 'summary of %s and %s' % (L1, L2))
 prev = []
-for x in 'ABCDEFGHIJKLMN':
+for x in 'ABCDEFGHIJKLMNOP':
     f = '/verif/seeded/%s-%s/meta.json' % (pid, x)
     if os.path.exists(f):
         prev.append('- ' + (json.load(open(f)).get('summary') or '')[:300].replace('\n', ' '))
